@@ -9,37 +9,66 @@ from eqsig import stockwell as sw
 
 from pbt import core
 from pbt import gen
-from pbt.core import clause
+from pbt.core import clause, enum_clause
 from pbt.ref import stockwell as ref
 
 PROPERTY = "C15"
 CLAUSES = []
 ASSUMPTIONS = [
-    "records are finite real float64 ndarrays (clause implementations: also integer-dtype ndarrays and Python lists), "
-    "4 <= length <= 1024 (longer generated records are cut to 1024 samples), non-zero |x| in [1e-30, 1e9]; n denotes the "
-    "length truncated to even, 2*floor(length/2); the last sample of an odd record is ignored",
-    "quick tier draws lengths up to 128, thorough tier up to 1024 (the length is drawn first; generated records with leading / "
-    "trailing zero runs are cut back to it); explicit value lists only for lengths <= 64, longer records are seeded recipes; "
-    "the check itself does not depend on the tier (a replayed case is evaluated the same way in both)",
+    "records are finite real float64 ndarrays, also handed over as a Python list, an int64 ndarray (all clauses), a "
+    "non-contiguous / negative-stride / read-only view (definition, marginal-inverse) or an int16 ndarray (implementations): "
+    "both implementations document `acc: array_like`, so a list or an integer array holding the same reals is the same record; "
+    "4 <= length <= 1024 (longer generated records are cut to 1024 samples); n denotes the length truncated to even, "
+    "2*floor(length/2); the last sample of an odd record is ignored.  float32 / float16 and narrow unsigned / int32 records are "
+    "left to the shared generator (handled centrally)",
+    "magnitudes: 'every real record' has no unit, so the recipes (non-zero |x| in [1e-30, 1e9]) are also presented in another unit, "
+    "x * 2^u with u in [-700, 700] (exact), i.e. non-zero |x| from about 1e-241 to 1e219 in the cell-level clauses and "
+    "A * 2^u, u in {-800, -600, 560, 800} (|x| from 1e-247 to 7e246) in dominant-frequency.  The transform is linear in x, none of "
+    "the statement's quantities needs a product of two data values, so no correct implementation leaves the double range there; "
+    "an implementation that squares the data (argmax of |S|^2, a peak-normalised copy that is not scaled back) and thereby "
+    "under/overflows does break the statement for a record that is inside the quantifier ('all real records'); all norms in the "
+    "oracle are computed on max-normalised data",
+    "quick tier: the Hypothesis clauses draw lengths up to 128, thorough up to 1024 (the length is drawn first; generated records "
+    "with leading / trailing zero runs are cut back to it); explicit value lists only for lengths <= 64, longer records are seeded "
+    "recipes; lengths 129..1024 are covered in BOTH tiers by the deterministic enumerations `mid-range` (all cell-level sentences) "
+    "and `mid-range-dominant` (gen.size_ladder: one length per logarithmic bin placed by VERIF_SEED + lengths aimed at the integer "
+    "literals of the source under test + 1023 and 1024); the thorough tier adds 2047 / 2048 / 3001 / 4096 samples, which lie "
+    "OUTSIDE the quantifier (4..1024) and are looked at with tolerances multiplied by n/1024; the check itself does not depend on "
+    "the tier (a replayed case is evaluated the same way in both)",
     "tolerance on every time-frequency cell: 1e-12*||x||_2 (x = the truncated record).  Derivation: |S[k,tau]| <= ||S_k||_2 <= "
     "||x||_2 (Parseval, Gaussian <= 1), a backward-stable FFT has norm-wise error c*eps*log2(n)*||.||_2, so forward + inverse FFT "
     "give |dS| <= 2c*eps*log2(n)*||x||_2 ~ 5e-14*||x||_2 at n = 1024; observed 3e-17.  DESIGN.md's 1e-10*max|S| is NOT used: "
-    "for a constant record max|S| = exp(-2 pi^2)*|mean| = 2.7e-9*|mean| while rounding is eps*|mean|, so that scale is unsound",
+    "for a constant record max|S| = exp(-2 pi^2)*|mean| = 2.7e-9*|mean| while rounding is eps*|mean|, so that scale is unsound.  "
+    "The bound is norm-wise on purpose: a cell far below ||x||_2 is only known to that absolute level by ANY FFT-based "
+    "implementation, so a per-cell relative bound would be unsound",
     "tolerance on a row sum and on the inverse transform: 1e-12*sqrt(n)*||x||_2 (Cauchy-Schwarz over the n cells of a row; covers "
     "recursive as well as pairwise summation: (c*log2(n) + n)*eps <= 1e-12 for n <= 1024); note sqrt(n)*||x||_2 >= sum|x|",
     "linearity: transform(alpha*a + beta*b) vs alpha*transform(a) + beta*transform(b) with tolerance "
     "1e-12*(|alpha|*||a||_2 + |beta|*||b||_2) (rounding of the combination itself is eps per sample of the same scale)",
     "reference for n <= 160: long-double triple sum with a direct O(n^2) DFT (no FFT); for n > 160 the same formula row by row "
-    "with one double-precision inverse FFT per frequency; on every record with n <= 160 the two reference forms are compared with "
+    "with one double-precision inverse FFT per frequency over the WHOLE array plus, in the mid-range enumeration, the long-double "
+    "sum itself (direct DFT, no FFT) on a sample of cells: ~20 rows x ~40 columns chosen by hash, always with the first two / last "
+    "two rows and columns and indices that are 0, 1, -1 modulo 2^5..2^9; on every record the two reference forms are compared with "
     "each other (disagreement is a harness error, not a violation)",
     "Fourier coefficient X_k = sum_t x_t exp(-2 pi i k t/n) (direct long-double DFT of the truncated record); Nyquist component "
     "= (X_{n/2}/n)*(-1)^t; mean = X_0/n",
+    "the optional argument `interp` of both implementations is not mentioned by the statement: it is passed only at its documented "
+    "default, interp=False (by keyword or positionally, hash-chosen), which must be the same request as omitting it; nothing is "
+    "asserted for interp=True",
+    "the inverse transform may return a real array or a complex one whose imaginary part is zero to the same tolerance (the "
+    "statement says 'recovers the record'); it is fed the transform's own output, a C-ordered copy or a Fortran-ordered copy",
+    "argument purity (the caller's array byte-identical after the call) and 'same result when called again' are claims of C05, "
+    "which lists Stockwell explicitly; they are not asserted here (the oracle works on a float copy taken before the calls)",
     "dominant frequency: x_t = A*cos(2 pi k0 t/n + phase) for t = 0..length-1 (the phase index k0*t is reduced mod n in integers), "
-    "k0 integer in [2, floor(0.75*n/2)], hence n >= 6; A in [1e-6, 1e6]; dt in [1e-4, 10]; 'middle half' = samples "
-    "ceil(n/4)..floor(3n/4); expected value k0/(n*dt) with relative tolerance 1e-12 (two roundings in the frequency axis); "
-    "the margin |S[k0]| - max other row is >= 1e-4*A/2 for every n <= 1024 (probe over all k0 and 5 phases), rounding is 1e-16*A",
-    "the trace is read through get_max_stockwell_freq on a fresh AccSignal or Signal (no cached swtf attribute) and through "
-    "get_max_tifq_vals_freq on transform(x) or |transform(x)|",
+    "k0 integer in [2, floor(0.75*n/2)], hence n >= 6; A in [1e-6, 1e6] (times 2^u, see above); 'all dt': dt log-uniform in "
+    "[1e-9, 1e6] besides [1e-4, 10] and the repo's rates, float or int; 'middle half' = samples ceil(n/4)..floor(3n/4); expected "
+    "value k0/(n*dt) with relative tolerance 1e-12 (two roundings in the frequency axis); the margin |S[k0]| - max other row is >= "
+    "1e-4*A/2 for every n <= 1024 (probe over all k0 and 5 phases), rounding is 1e-16*A; the trace may have n or `length` entries "
+    "(the statement fixes the middle half only)",
+    "the trace is read through get_max_stockwell_freq on an AccSignal or Signal whose record has not been replaced since it was "
+    "constructed (read once or twice; a second read goes through the `swtf` attribute cached by the first) and through "
+    "get_max_tifq_vals_freq on transform(x) or |transform(x)|.  An object whose values were replaced AFTER a first read "
+    "(reset_values) is a call history, not an input: staleness of derived attributes is C04's subject and is not asserted here",
 ]
 LD = np.longdouble
 CLD = np.clongdouble
@@ -86,15 +115,24 @@ def _lengths(lo=4):
     return st.tuples(base, st.booleans()).map(parity)
 
 
+# the same record in another unit: x * 2^u (exact).  'every real record' carries no unit (see ASSUMPTIONS)
+_UNITS = st.one_of(st.just(0), st.just(0), st.integers(-700, 700), st.sampled_from([34, 40, -40, 100, -100, 300, -300, 700, -700]))
+_CONTAINERS = ("list", "int", "view", "negstride", "readonly")
+
+
 @st.composite
-def _rec_cases(draw, allow_int=False):
+def _rec_cases(draw, allow_int=_CONTAINERS):
     """{"rec": spec, "cut": length}: the length is drawn first (uniform, small, or around a power of two), then a record
     of that length (+ optional zero runs; the record is cut back to `length`, so leading zeros survive)."""
     length = draw(_lengths())
     kinds = None if length <= 64 else RECIPE_KINDS  # explicit value lists only for short records
     spec = _fix_int_amp(draw(gen.record_specs(min_n=length, max_n=length, small_max=length, kinds=kinds,
                                               allow_int=allow_int)))
-    return {"rec": spec, "cut": length}
+    case = {"rec": spec, "cut": length}
+    unit = draw(_UNITS)
+    if unit and spec.get("as") != "int":
+        case["unit"] = unit
+    return case
 
 
 def _record(case, key="rec"):
@@ -102,8 +140,26 @@ def _record(case, key="rec"):
     spec = case[key]
     a = gen.build(spec)
     a = a[:int(case.get("cut") or MAX_LEN)]
+    u = int(case.get("unit") or 0)
+    if u and spec.get("as") != "int":
+        a = a * 2.0 ** u  # exact: |a| <= 1e9 and non-zero |a| >= 1e-30, |u| <= 700
     arg = gen.as_container(spec, a)
     return arg, np.array(arg, dtype=float)
+
+
+def _norm(x):
+    """||x||_2 without squaring the unit (records in extreme units would over / underflow)."""
+    x = np.asarray(x, dtype=float)
+    m = float(np.max(np.abs(x))) if x.size else 0.0
+    if m == 0.0:
+        return 0.0
+    return m * float(np.linalg.norm(x / m))
+
+
+def _pick(case, salt, seq):
+    """Deterministic choice from `seq` by the case's hash (replay files reproduce it)."""
+    h = int(core.case_hash({"c": case, "salt": salt})[:8], 16)
+    return seq[h % len(seq)]
 
 
 def _classify(ctx, spec, x, n):
@@ -117,8 +173,14 @@ def _classify(ctx, spec, x, n):
         ctx.cls("zero-record")
     elif np.ptp(xt) == 0:
         ctx.cls("constant-record")
-    if abs(float(np.mean(xt))) > 0.01 * float(np.sqrt(np.mean(xt * xt))) > 0:
+    top = float(np.max(np.abs(xt))) if n else 0.0
+    xs = xt / top if top > 0 else xt
+    if abs(float(np.mean(xs))) > 0.01 * float(np.sqrt(np.mean(xs * xs))) > 0:
         ctx.cls("has-mean")
+    if top > 1e10:
+        ctx.cls("peak>1e10")
+    elif 0 < top < 1e-10:
+        ctx.cls("peak<1e-10")
     return n >= 8 and spec["k"] not in ("sines", "const") and np.ptp(xt) > 0
 
 
@@ -128,7 +190,7 @@ def _reference_array(x):
     if n <= DIRECT_MAX_N:
         s = ref.s_transform(x)
         s2 = ref.s_transform_rows_fft(x)
-        scale = float(np.linalg.norm(x))
+        scale = _norm(x)
         if not float(np.max(np.abs(s2 - s))) <= RTOL * scale + core.TINY:
             raise core.HarnessError("the two reference forms of the S-transform disagree (n=%d)" % n)
         return ref.statement_array(s), "ref=direct-longdouble"
@@ -143,27 +205,44 @@ def _check_array(ctx, got, n, what):
     return got
 
 
+def _call(ctx, case, fn, arg, salt):
+    """fn(arg) | fn(arg, interp=False) | fn(arg, False): omitting the option, or giving its documented default by keyword or
+    positionally, is the same request (hash-chosen)."""
+    how = _pick(case, "interp:" + salt, ["omit", "omit", "kw", "pos"])
+    if how == "kw":
+        ctx.cls("interp=False(kw)")
+        return ctx.lib(fn, arg, interp=False)
+    if how == "pos":
+        ctx.cls("interp=False(pos)")
+        return ctx.lib(fn, arg, False)
+    return ctx.lib(fn, arg)
+
+
 # ---------------------------------------------------------------------------
 # clause 1: definition
 
 
 @clause(CLAUSES, "definition", _rec_cases(), quick=800, thorough=600,
         rule="float records of all kinds; length 4..128 (quick) / 4..1024 (thorough) drawn first: uniform, small (<= 24) or a "
-             "power of two -1/+0/+1/+2, odd and even; non-trivial = non-sinusoidal, non-constant record with n >= 8",
-        oracle="reference model: shape (n/2, 2*floor(len/2)), complex, equal to flipud(conj(S)) with S the discrete S-transform "
+             "power of two -1/+0/+1/+2, odd and even; float64 ndarray, list, int64, strided / reversed / read-only view; the record "
+             "in its own unit or times 2^u, |u| <= 700; interp omitted or False; non-trivial = non-sinusoidal, non-constant record "
+             "with n >= 8",
+        oracle="reference model, BOTH implementations: shape (n/2, 2*floor(len/2)), complex, equal to flipud(conj(S)) with S the discrete S-transform "
                "(long-double triple sum + direct DFT for n <= 160, per-row inverse FFT of the shifted spectrum above), "
                "tolerance 1e-12*||x||_2 per cell",
-        require={"odd": 0.3, "even": 0.3, "pow2": 0.1, "non-pow2": 0.3, "n/2-odd": 0.1, "has-mean": 0.2},
+        require={"odd": 0.3, "even": 0.3, "pow2": 0.1, "non-pow2": 0.3, "n/2-odd": 0.1, "has-mean": 0.2, "peak>1e10": 0.08,
+                 "peak<1e-10": 0.08},
         min_nontrivial=0.3)
 def definition(case, ctx):
     arg, x = _record(case)
     n = ref.even_length(len(x))
     ctx.nt(_classify(ctx, case["rec"], x, n))
-    got = _check_array(ctx, ctx.lib(sw.transform, arg), n, "transform")
     want, form = _reference_array(x[:n])
     ctx.cls(form)
-    ctx.close(got, want, RTOL * float(np.linalg.norm(x[:n])),
-              "transform vs conj of the discrete S-transform (row 0 = Nyquist, row n/2-1 = first harmonic)")
+    for name, fn in (("transform", sw.transform), ("transform_w_scipy_fft", sw.transform_w_scipy_fft)):
+        got = _check_array(ctx, _call(ctx, case, fn, arg, name), n, name)
+        ctx.close(got, want, RTOL * _norm(x[:n]),
+                  "%s vs conj of the discrete S-transform (row 0 = Nyquist, row n/2-1 = first harmonic)" % name)
 
 
 # ---------------------------------------------------------------------------
@@ -180,29 +259,20 @@ def _impl_cases(draw):
     if how:
         ra["as"] = how
         _fix_int_amp(ra)
-    return {"ra": ra, "rb": rb, "alpha": draw(gen.scalars()), "beta": draw(gen.scalars())}
-
-
-def _snapshot(arg):
-    if isinstance(arg, np.ndarray):
-        return (arg.dtype, arg.shape, arg.tobytes())
-    return list(arg)
-
-
-def _unchanged(ctx, arg, snap, what):
-    if isinstance(arg, np.ndarray):
-        ctx.check((arg.dtype, arg.shape, arg.tobytes()) == snap, "%s modified its input array" % what)
-    else:
-        ctx.check(type(arg) is list and arg == snap, "%s modified its input list" % what)
+    case = {"ra": ra, "rb": rb, "alpha": draw(gen.scalars()), "beta": draw(gen.scalars())}
+    unit = draw(_UNITS)
+    if unit and how != "int":
+        case["unit"] = unit
+    return case
 
 
 @clause(CLAUSES, "implementations", _impl_cases(), quick=600, thorough=500,
         rule="pairs of equal-length records (a, b) of all kinds, length 4..128 (quick) / 4..1024 (thorough) incl. powers of two "
-             "(+1), record a as float ndarray / integer-dtype ndarray / list, factors alpha, beta signed log-uniform or +-2^k; "
-             "non-trivial = n >= 8 and both records non-constant",
+             "(+1), record a as float ndarray / integer-dtype ndarray / list, factors alpha, beta signed log-uniform or +-2^k, both "
+             "records in their own unit or times 2^u, |u| <= 700; non-trivial = n >= 8 and both records non-constant",
         oracle="differential: transform vs transform_w_scipy_fft (1e-12*||x||_2 per cell, same shape and complex dtype); "
-               "metamorphic linearity of both (1e-12*(|alpha| ||a|| + |beta| ||b||)); list / integer input gives the array of "
-               "the float ndarray; argument byte-identical after each call",
+               "metamorphic linearity of both (1e-12*(|alpha| ||a|| + |beta| ||b||)); list / integer input (array_like) gives the "
+               "array of the float ndarray",
         require={"odd": 0.3, "even": 0.3, "as=list": 0.1, "as=int": 0.1, "pow2": 0.1, "non-pow2": 0.3},
         min_nontrivial=0.3)
 def implementations(case, ctx):
@@ -211,26 +281,22 @@ def implementations(case, ctx):
     n = ref.even_length(len(a))
     _classify(ctx, case["ra"], a, n)
     ctx.nt(n >= 8 and np.ptp(a[:n]) > 0 and np.ptp(b[:n]) > 0)
-    na = float(np.linalg.norm(a[:n]))
-    nb = float(np.linalg.norm(b[:n]))
-    # the two implementations on the caller's container
-    snap = _snapshot(arg)
-    t1 = _check_array(ctx, ctx.lib(sw.transform, arg), n, "transform")
-    _unchanged(ctx, arg, snap, "transform")
-    t2 = _check_array(ctx, ctx.lib(sw.transform_w_scipy_fft, arg), n, "transform_w_scipy_fft")
-    _unchanged(ctx, arg, snap, "transform_w_scipy_fft")
+    na = _norm(a[:n])
+    nb = _norm(b[:n])
+    # the two implementations on the caller's container (a and b are float copies taken before any call)
+    t1 = _check_array(ctx, _call(ctx, case, sw.transform, arg, "t1"), n, "transform")
+    t2 = _check_array(ctx, _call(ctx, case, sw.transform_w_scipy_fft, arg, "t2"), n, "transform_w_scipy_fft")
     ctx.close(t2, t1, RTOL * na, "transform_w_scipy_fft vs transform")
     # container independence (list / integer dtype vs the float ndarray of the same values)
     if not (isinstance(arg, np.ndarray) and arg.dtype == np.float64):
         fa = np.array(a, dtype=float)
-        snap_f = _snapshot(fa)
         t1f = _check_array(ctx, ctx.lib(sw.transform, fa), n, "transform(float ndarray)")
-        t2f = _check_array(ctx, ctx.lib(sw.transform_w_scipy_fft, fa), n, "transform_w_scipy_fft(float ndarray)")
-        _unchanged(ctx, fa, snap_f, "transform / transform_w_scipy_fft")
+        t2f = _check_array(ctx, ctx.lib(sw.transform_w_scipy_fft, np.array(a, dtype=float)), n, "transform_w_scipy_fft(float ndarray)")
         ctx.close(t1, t1f, RTOL * na, "transform(%s) vs transform(float ndarray)" % case["ra"].get("as"))
         ctx.close(t2, t2f, RTOL * na, "transform_w_scipy_fft(%s) vs the float ndarray" % case["ra"].get("as"))
         if isinstance(arg, np.ndarray) and arg.dtype.kind == "i" and np.max(np.abs(a)) <= 32767:
-            # raw digitiser counts are usually stored in a small integer dtype
+            # raw digitiser counts are usually stored in a small integer dtype (kept from round 3; further narrow dtypes are
+            # left to the shared generator)
             small = np.array(arg, dtype=np.int16)
             ctx.cls("as=int16")
             ctx.close(_check_array(ctx, ctx.lib(sw.transform, small), n, "transform(int16)"), t1f, RTOL * na, "transform(int16) vs transform(float ndarray)")
@@ -241,8 +307,8 @@ def implementations(case, ctx):
     comb = al * a + be * b
     scale = abs(al) * na + abs(be) * nb
     for name, fn, ta in (("transform", sw.transform, t1), ("transform_w_scipy_fft", sw.transform_w_scipy_fft, t2)):
-        tb = _check_array(ctx, ctx.lib(fn, b), n, name + "(b)")
-        tc = _check_array(ctx, ctx.lib(fn, comb), n, name + "(alpha*a + beta*b)")
+        tb = _check_array(ctx, ctx.lib(fn, np.array(b)), n, name + "(b)")
+        tc = _check_array(ctx, ctx.lib(fn, np.array(comb)), n, name + "(alpha*a + beta*b)")
         ctx.close(tc, al * ta + be * tb, RTOL * scale, "%s: linearity (alpha=%r, beta=%r)" % (name, al, be))
 
 
@@ -253,32 +319,51 @@ def implementations(case, ctx):
 @clause(CLAUSES, "marginal-inverse", _rec_cases(), quick=800, thorough=600,
         rule="same generator as `definition`; non-trivial = non-sinusoidal, non-constant record with n >= 8",
         oracle="reference model: long-double sum over time of row r equals conj(X_k), k = n/2 - r, X from the direct long-double DFT "
-               "(1e-12*sqrt(n)*||x||_2); itransform(transform(x)) is a real array of length n equal to "
-               "x[:n] - mean - Nyquist component (same tolerance)",
-        require={"odd": 0.3, "even": 0.3, "pow2": 0.1, "non-pow2": 0.3, "n/2-odd": 0.1, "has-mean": 0.2},
+               "(1e-12*sqrt(n)*||x||_2); itransform(transform(x)) (the array itself, a C copy or a Fortran-ordered copy) has "
+               "length n, zero imaginary part and equals x[:n] - mean - Nyquist component (same tolerance)",
+        require={"odd": 0.3, "even": 0.3, "pow2": 0.1, "non-pow2": 0.3, "n/2-odd": 0.1, "has-mean": 0.2, "peak>1e10": 0.08,
+                 "peak<1e-10": 0.08},
         min_nontrivial=0.3)
 def marginal_inverse(case, ctx):
     arg, x = _record(case)
     n = ref.even_length(len(x))
     ctx.nt(_classify(ctx, case["rec"], x, n))
     xt = x[:n]
-    tol = RTOL * math.sqrt(n) * float(np.linalg.norm(xt))
+    tol = RTOL * math.sqrt(n) * _norm(xt)
     big_x = ref.dft(xt)
     if float(np.abs(big_x[n // 2])) > 0.01 * float(np.max(np.abs(big_x))) > 0:
         ctx.cls("has-nyquist")
-    got = _check_array(ctx, ctx.lib(sw.transform, arg), n, "transform")
+    name, fn = _pick(case, "impl", [("transform", sw.transform), ("transform", sw.transform),
+                                    ("transform_w_scipy_fft", sw.transform_w_scipy_fft)])
+    ctx.cls("impl=" + name)
+    got = _check_array(ctx, _call(ctx, case, fn, arg, "mi"), n, name)
+    _marginal_and_inverse(ctx, case, got, xt, big_x, tol, name)
+
+
+def _marginal_and_inverse(ctx, case, got, xt, big_x, tol, name):
+    """Sentences 8 and 9 on one transform array `got` of the even-length record xt (big_x: its long-double DFT)."""
+    n = len(xt)
     rows = got.astype(CLD).sum(axis=1)
     want = np.conj(big_x[np.arange(n // 2, 0, -1)])  # row r <-> frequency index n/2 - r
-    ctx.close(rows, want, tol, "sum over time of each row vs conjugate Fourier coefficient (row 0 = Nyquist)")
-    back = ctx.lib(sw.itransform, got)
-    back = np.asarray(back)
-    ctx.shape(back, (n,), "itransform(transform(x))")
-    ctx.check(not np.iscomplexobj(back) and back.dtype.kind == "f", "itransform: dtype %s is not real" % back.dtype)
-    ctx.close(back, ref.nyquist_and_mean_removed(xt), tol, "itransform(transform(x)) vs x - mean - Nyquist component")
+    ctx.close(rows, want, tol, "%s: sum over time of each row vs conjugate Fourier coefficient (row 0 = Nyquist)" % name)
+    layout = _pick(case, "layout:" + name, ["same", "copy", "fortran"])
+    ctx.cls("itransform-input=" + layout)
+    stock = got if layout == "same" else (np.array(got, order="C") if layout == "copy" else np.asfortranarray(got))
+    back = np.asarray(ctx.lib(sw.itransform, stock))
+    ctx.shape(back, (n,), "itransform(%s(x))" % name)
+    if np.iscomplexobj(back):  # 'recovers the record': a complex result must have a zero imaginary part
+        ctx.close(back.imag, np.zeros(n), tol, "itransform(%s(x)): imaginary part" % name)
+        back = back.real
+    ctx.check(back.dtype.kind in "fiu", "itransform: dtype %s is not numeric" % back.dtype)
+    ctx.close(back, ref.nyquist_and_mean_removed(xt), tol, "itransform(%s(x)) vs x - mean - Nyquist component" % name)
 
 
 # ---------------------------------------------------------------------------
 # clause 4: dominant frequency of a stationary on-grid sinusoid
+
+
+# 'all dt': the repo's rates, the usual band, any positive magnitude, and integer steps
+_DTS = st.one_of(gen.dts(1e-4, 10.0), gen.dts(1e-4, 10.0), gen.log_uniform(1e-9, 1e-4), gen.log_uniform(10.0, 1e6), st.integers(1, 3000))
 
 
 @st.composite
@@ -289,18 +374,19 @@ def _dom_cases(draw):
     k0 = draw(st.one_of(st.integers(2, kmax), st.sampled_from([2, kmax]), st.integers(max(2, kmax - 3), kmax)))
     return {"len": length, "k0": k0, "phase": draw(st.floats(0.0, 2 * math.pi, allow_nan=False)),
             "amp": draw(gen.log_uniform(1e-6, 1e6)), "unit": draw(st.sampled_from([0, 0, 0, -600, -800, 560, 800])),
-            "dt": draw(gen.dts(1e-4, 10.0)),
-            "obj": draw(st.sampled_from(["acc", "sig"])), "mag": draw(st.booleans())}
+            "dt": draw(_DTS),
+            "obj": draw(st.sampled_from(["acc", "sig"])), "mag": draw(st.booleans()), "reads": draw(st.sampled_from([1, 1, 2]))}
 
 
 @clause(CLAUSES, "dominant-frequency", _dom_cases(), quick=800, thorough=600,
         rule="x_t = A cos(2 pi k0 t/n + phase), length 6..128 (quick) / 6..1024 (thorough) odd and even, k0 uniform in "
-             "[2, floor(0.75 n/2)] or at / near either end, A log-uniform [1e-6,1e6], dt log-uniform [1e-4,10] + repo rates; "
-             "non-trivial = n >= 8",
+             "[2, floor(0.75 n/2)] or at / near either end, A log-uniform [1e-6,1e6] (x 2^{0,-800,-600,560,800}), dt log-uniform "
+             "[1e-4,10] + repo rates | log-uniform [1e-9,1e6] | integer 1..3000; the object is read once or twice; non-trivial = n >= 8",
         oracle="reference model (closed form from the statement): get_max_stockwell_freq(AccSignal|Signal) and "
-               "get_max_tifq_vals_freq(transform(x) | |transform(x)|, dt) have n entries and equal k0/(n dt) on samples "
+               "get_max_tifq_vals_freq(transform(x) | |transform(x)|, dt) have n (or len(x)) entries and equal k0/(n dt) on samples "
                "ceil(n/4)..floor(3n/4), relative 1e-12",
-        require={"odd": 0.3, "even": 0.3, "k0=2": 0.05, "k0=kmax": 0.05, "k0>n/4": 0.1, "pow2": 0.05},
+        require={"odd": 0.3, "even": 0.3, "k0=2": 0.05, "k0=kmax": 0.05, "k0>n/4": 0.1, "pow2": 0.05, "dt-int": 0.1,
+                 "dt>10": 0.05, "dt<1e-4": 0.04, "reads=2": 0.2},
         min_nontrivial=0.5)
 def dominant_frequency(case, ctx):
     length = int(case["len"])
@@ -309,28 +395,288 @@ def dominant_frequency(case, ctx):
     kmax = (3 * n) // 8
     if not (6 <= length <= MAX_LEN and 2 <= k0 <= kmax):
         raise ValueError("case outside the domain")
-    dt = float(case["dt"])
-    t = np.arange(length)
-    x = float(case["amp"]) * np.cos(2 * math.pi * ((k0 * t) % n) / n + float(case["phase"]))
+    x = _cosine(case)
     if case.get("unit"):
-        x = x * 2.0 ** case["unit"]  # the same record in extreme units (about 1e-240 .. 1e240): exact change of unit
         ctx.cls("extreme-unit")
     ctx.cls(gen.size_class(length), "odd" if length % 2 else "even", "pow2" if _is_pow2(n) else "non-pow2",
             "k0=2" if k0 == 2 else None, "k0=kmax" if k0 == kmax else None, "k0>n/4" if 4 * k0 > n else "k0<=n/4",
             "obj=" + case["obj"])
     ctx.nt(n >= 8)
-    f0 = LD(k0) / (LD(n) * LD(dt))
+    _dominant(ctx, case, x)
+
+
+def _cosine(case):
+    length = int(case["len"])
+    n = ref.even_length(length)
+    t = np.arange(length)
+    x = float(case["amp"]) * np.cos(2 * math.pi * ((int(case["k0"]) * t) % n) / n + float(case["phase"]))
+    if case.get("unit"):
+        x = x * 2.0 ** case["unit"]  # the same record in extreme units (about 1e-247 .. 7e246): exact change of unit
+    return x
+
+
+def _trace(ctx, tr, n, length, lo, hi, f0, tol, what):
+    tr = np.asarray(tr)
+    ctx.check(tr.ndim == 1 and len(tr) in (n, length), "%s: trace of shape %s for a record of %d samples (n = %d)" % (
+        what, tr.shape, length, n))
+    ctx.close(tr[lo:hi + 1], np.full(hi + 1 - lo, f0), tol, "%s on samples %d..%d vs k0/(n dt)" % (what, lo, hi))
+
+
+def _dominant(ctx, case, x):
+    """Sentence 10 on the cosine x of `case` through both entry points; returns the object that was read."""
+    length = len(x)
+    n = ref.even_length(length)
+    k0 = int(case["k0"])
+    dt = case["dt"]  # float or int, handed to the library as it is
+    ctx.cls("dt-int" if isinstance(dt, int) else None, "dt>10" if dt > 10 else None, "dt<1e-4" if dt < 1e-4 else None)
+    f0 = LD(k0) / (LD(n) * LD(float(dt)))
     lo, hi = -((-n) // 4), (3 * n) // 4
     tol = RTOL * float(f0)
     asig = ctx.lib(eqsig.AccSignal if case["obj"] == "acc" else eqsig.Signal, x, dt)
-    tr1 = np.asarray(ctx.lib(sw.get_max_stockwell_freq, asig))
-    ctx.shape(tr1, (n,), "get_max_stockwell_freq")
-    ctx.close(tr1[lo:hi + 1], np.full(hi + 1 - lo, f0), tol,
-              "get_max_stockwell_freq on samples %d..%d vs k0/(n dt) (k0=%d, n=%d)" % (lo, hi, k0, n))
+    reads = int(case.get("reads", 1))
+    ctx.cls("reads=%d" % reads)
+    for i in range(reads):  # the second read goes through the attribute cached by the first; the record is unchanged
+        _trace(ctx, ctx.lib(sw.get_max_stockwell_freq, asig), n, length, lo, hi, f0, tol,
+               "get_max_stockwell_freq (read %d, k0=%d, n=%d)" % (i + 1, k0, n))
     tifq = ctx.lib(sw.transform, x)
     if case["mag"]:
         tifq = np.abs(tifq)
-    tr2 = np.asarray(ctx.lib(sw.get_max_tifq_vals_freq, tifq, dt))
-    ctx.shape(tr2, (n,), "get_max_tifq_vals_freq")
-    ctx.close(tr2[lo:hi + 1], np.full(hi + 1 - lo, f0), tol,
-              "get_max_tifq_vals_freq on samples %d..%d vs k0/(n dt) (k0=%d, n=%d)" % (lo, hi, k0, n))
+    _trace(ctx, ctx.lib(sw.get_max_tifq_vals_freq, tifq, dt), n, length, lo, hi, f0, tol,
+           "get_max_tifq_vals_freq (k0=%d, n=%d)" % (k0, n))
+    return asig, (n, length, lo, hi, f0, tol)
+
+
+# ---------------------------------------------------------------------------
+# mid-range (DESIGN 8.5): lengths 129..1024 in BOTH tiers (the quantifier ends at 1024; thorough adds a few longer records).
+# Deterministic enumerations: lengths from gen.size_ladder (one per logarithmic bin, placed by a hash of VERIF_SEED, plus the
+# lengths aimed at the integer literals of the source under test), every other parameter a hash of (VERIF_SEED, tag, index).
+# All sentences are checked on the WHOLE array (per-row inverse-FFT form of the formula, row sums, inverse, linearity, the two
+# implementations against each other AND each against the reference); the long-double sum without any FFT on a sample of cells.
+
+import hashlib as _hashlib  # noqa: E402
+
+
+def _hu(*parts):
+    """Uniform number in [0, 1): hash of (VERIF_SEED, parts)."""
+    s = ":".join(str(p) for p in (gen.run_seed(), "c15") + parts)
+    return (int(_hashlib.blake2b(s.encode(), digest_size=8).hexdigest(), 16) % 10 ** 9) / 1e9
+
+
+def _hpick(seq, *parts):
+    return seq[min(len(seq) - 1, int(_hu(*parts) * len(seq)))]
+
+
+def _sd(*parts):
+    return int(_hu("seed", *parts) * (2 ** 31 - 1))
+
+
+MR_KINDS = ["noise", "band", "sines", "walk"]
+MR_UNITS = [0, 0, 0, 34, -47, 120, -333, 700, -700]
+
+
+def _mr_record(n, kind, seed):
+    """Ordinary data that keep an error visible: every stretch of the record (and of its spectrum) contributes differently,
+    non-zero mean, non-zero Nyquist component, no quiet tail."""
+    rs = np.random.RandomState(int(seed))
+    t = np.arange(n, dtype=float)
+    x = t / n
+    if kind == "noise":
+        a = rs.standard_normal(n) * (0.6 + 0.8 * x)
+    elif kind == "band":
+        w = 3 + int(rs.randint(0, 6))
+        cs = np.cumsum(rs.standard_normal(n + w))
+        a = (cs[w:] - cs[:-w]) / math.sqrt(w) * (1.3 - 0.7 * x) + 0.05 * rs.standard_normal(n)
+    elif kind == "sines":
+        a = np.zeros(n)
+        for j in range(4):
+            cyc = float(rs.uniform(0.7, n / 2.0 - 0.5))
+            a = a + rs.uniform(0.2, 1.0) * np.sin(2 * math.pi * cyc * t / n + rs.uniform(0, 2 * math.pi))
+        a = a * (0.7 + 0.6 * np.sin(math.pi * x)) + 0.02 * rs.standard_normal(n)
+    elif kind == "walk":
+        a = np.cumsum(rs.standard_normal(n)) / math.sqrt(n) + 0.1 * rs.standard_normal(n)
+    else:
+        raise ValueError(kind)
+    return a + 0.37 + 0.21 * np.where(np.arange(n) % 2 == 0, 1.0, -1.0)
+
+
+def _mr_lengths(tier, tag):
+    """(lengths inside the quantifier, lengths beyond it - thorough only)."""
+    if tier == "quick":
+        return sorted(set(gen.size_ladder(129, MAX_LEN, 16, "c15:" + tag)) | {1023, 1024}), []
+    inside = (set(gen.size_ladder(129, MAX_LEN, 40, "c15:t:" + tag, mined_limit=16)) | set(gen.ladder(129, MAX_LEN, 16, "c15:" + tag))
+              | {1023, 1024} | set(_special_lengths(MAX_LEN, 129)))
+    return sorted(inside), [2047, 2048, 3001, 4096]
+
+
+def _mr_cases(tier):
+    inside, beyond = _mr_lengths(tier, "n")
+    cases = []
+    for i, length in enumerate(inside + beyond):
+        for j in range(2 if length <= MAX_LEN else 1):
+            ln = int(length)
+            if j == 1:  # the second case of a rung has the other parity (last sample of an odd record ignored)
+                ln = ln + 1 if ln + 1 <= MAX_LEN else ln - 1
+            c = {"len": ln, "kind": MR_KINDS[(i + 2 * j + int(4 * _hu("kind", i))) % 4], "kind_b": _hpick(MR_KINDS, "kb", i, j),
+                 "seed": _sd("mr", i, j), "unit": 0 if j == 0 else _hpick(MR_UNITS, "unit", i, j),
+                 "as": "ndarray" if j == 0 else _hpick(["ndarray", "list", "int", "view", "negstride", "readonly"], "as", i, j),
+                 "alpha": round((-1) ** int(2 * _hu("as", i, j)) * math.exp(math.log(1e-3) + math.log(1e6) * _hu("al", i, j)), 9),
+                 "beta": float((-1) ** int(2 * _hu("bs", i, j)) * 2.0 ** int(-8 + 17 * _hu("be", i, j)))}
+            if c["as"] == "int":
+                c["unit"] = 0
+            cases.append(c)
+    return cases
+
+
+def _mr_enum(tier, shard, nshards):
+    for i, c in enumerate(_mr_cases(tier)):
+        if i % nshards == shard:
+            yield c
+
+
+def _sample_indices(lo, hi, count, *tag):
+    """Indices in [lo, hi]: the first two, the last two, `count` hash-chosen ones and, for every 2^j (j = 5..9), up to three
+    hash-chosen indices that are 0, 1 or -1 modulo 2^j (block seams)."""
+    out = {lo, min(hi, lo + 1), max(lo, hi - 1), hi}
+    span = hi - lo + 1
+    for i in range(count):
+        out.add(lo + int(_hu("idx", i, *tag) * span))
+    for j in range(5, 10):
+        b = 2 ** j
+        seams = [v for q in range(lo // b, hi // b + 2) for v in (q * b - 1, q * b, q * b + 1) if lo <= v <= hi]
+        for i in range(min(3, len(seams))):
+            out.add(_hpick(seams, "seam", j, i, *tag))
+    return np.array(sorted(out), dtype=np.int64)
+
+
+def _mr_reference(ctx, x, tag):
+    """Whole-array reference (per-row inverse FFT of the formula, double) cross-checked against the long-double sum (direct
+    DFT, no FFT) on a sample of cells; returns (statement array, X long-double, sampled rows r, sampled columns, cells)."""
+    n = len(x)
+    scale = _norm(x)
+    big_x = ref.dft(x) if n <= 1024 else ref.dft_chunked(x)
+    want = ref.statement_array(ref.s_transform_rows_fft(x))
+    ks = _sample_indices(1, n // 2, 12, "k", *tag)
+    taus = _sample_indices(0, n - 1, 28, "tau", *tag)
+    cells = np.conj(ref.s_cells(big_x, ks, taus))       # statement's values at (row n/2 - k, tau)
+    rows = n // 2 - ks
+    d = np.abs(want[np.ix_(rows, taus)].astype(CLD) - cells)
+    if not float(np.max(d)) <= 0.1 * _rtol(n) * scale + core.TINY:
+        raise core.HarnessError("the two reference forms of the S-transform disagree on the sampled cells (n=%d)" % n)
+    return want, big_x, rows, taus, cells
+
+
+def _rtol(n):
+    """1e-12 inside the quantifier (n <= 1024, see ASSUMPTIONS); longer records (thorough only, outside the quantifier): x n/1024."""
+    return RTOL * max(1.0, n / 1024.0)
+
+
+@enum_clause(CLAUSES, "mid-range", _mr_enum,
+             rule="record lengths gen.size_ladder(129, 1024, 16) + 1023 + 1024 (thorough: 40 + 16 rungs, the powers of two -1/+0/+1/+2, "
+                  "and 2047 / 2048 / 3001 / 4096 outside the quantifier), each rung in both parities; noise x envelope, band-limited "
+                  "noise, modulated off-grid sines, walk - all with a mean and a Nyquist component; float64 / list / int64 / strided / "
+                  "reversed / read-only container, unit 2^{0,34,-47,120,-333,+-700}, alpha signed log-uniform [1e-3,1e3], beta +-2^k by hash of "
+                  "(VERIF_SEED, index); interp omitted / False",
+             oracle="reference model on the WHOLE array for transform AND transform_w_scipy_fft (per-row inverse FFT of the statement's "
+                    "formula, 1e-12*||x||_2 per cell) + long-double sum without FFT on ~20 x ~40 sampled cells (first / last two rows and "
+                    "columns, seams modulo 2^5..2^9, hash-chosen); the two implementations against each other; every row sum vs the "
+                    "direct long-double DFT and the inverse of both (1e-12*sqrt(n)*||x||_2); linearity of both on the whole array",
+             exhaustive_note="deterministic size ladder: one record length per logarithmic bin of [129, 1024] and per mined literal, both parities",
+             require={"odd": 0.3, "even": 0.3}, min_nontrivial=0.9, quick_shards=4)
+def mid_range(case, ctx):
+    length = int(case["len"])
+    n = ref.even_length(length)
+    a = _mr_record(length, case["kind"], case["seed"])
+    b = _mr_record(length, case["kind_b"], int(case["seed"]) + 1)
+    u = int(case.get("unit") or 0)
+    if case["as"] == "int":
+        a = np.round(a * 1000.0)
+    if u:
+        a = a * 2.0 ** u
+        b = b * 2.0 ** u
+    spec = {"as": case["as"]} if case["as"] != "ndarray" else {}
+    arg = gen.as_container(spec, np.array(a))
+    x = np.array(arg, dtype=float)
+    xt = x[:n]
+    ctx.cls("kind=" + case["kind"], "as=" + case["as"], gen.size_class(length), "odd" if length % 2 else "even",
+            "pow2" if _is_pow2(n) else "non-pow2", "unit!=0" if u else "unit=0", "beyond-quantifier" if length > MAX_LEN else None)
+    ctx.nt(True)
+    rt = _rtol(n)
+    na = _norm(xt)
+    nb = _norm(b[:n])
+    want, big_x, rows, taus, cells = _mr_reference(ctx, xt, (case["seed"],))
+    got = {}
+    for name, fn in (("transform", sw.transform), ("transform_w_scipy_fft", sw.transform_w_scipy_fft)):
+        t = _check_array(ctx, _call(ctx, case, fn, arg, name), n, name)
+        got[name] = t
+        ctx.close(t, want, rt * na, "%s vs conj of the discrete S-transform, whole array (row 0 = Nyquist)" % name)
+        ctx.close(t[np.ix_(rows, taus)].astype(CLD), cells, rt * na,
+                  "%s vs the long-double sum on sampled cells (rows %s..., columns %s...)" % (name, rows[:4].tolist(), taus[:4].tolist()))
+        _marginal_and_inverse(ctx, case, t, xt, big_x, rt * math.sqrt(n) * na, name)
+    ctx.close(got["transform_w_scipy_fft"], got["transform"], rt * na, "transform_w_scipy_fft vs transform")
+    al, be = float(case["alpha"]), float(case["beta"])
+    comb = al * x + be * b
+    scale = abs(al) * na + abs(be) * nb
+    for name, fn in (("transform", sw.transform), ("transform_w_scipy_fft", sw.transform_w_scipy_fft)):
+        tb = _check_array(ctx, ctx.lib(fn, np.array(b)), n, name + "(b)")
+        tc = _check_array(ctx, ctx.lib(fn, np.array(comb)), n, name + "(alpha*a + beta*b)")
+        ctx.close(tc, al * got[name] + be * tb, rt * scale, "%s: linearity (alpha=%r, beta=%r)" % (name, al, be))
+
+
+# ---- mid-range, dominant frequency: length x k0 x (object type, magnitude / complex array, dt, unit, reads) ------------------
+
+
+def _md_cases(tier):
+    inside, _ = _mr_lengths(tier, "dom")
+    cases = []
+    for i, length in enumerate(inside):
+        n = ref.even_length(length)
+        kmax = (3 * n) // 8
+        k0s = sorted({2, kmax, kmax - 1, 3} | set(gen.ladder(4, kmax - 2, 4 if tier == "quick" else 8, "c15:k0:%d" % i)))
+        for j, k0 in enumerate(k0s):
+            ln = int(length)
+            if _hu("par", i, j) < 0.5:
+                ln = ln + 1 if ln % 2 == 0 and ln + 1 <= MAX_LEN else (ln - 1 if ln % 2 else ln)  # same n, other parity
+            dt_kind = _hpick(["repo", "repo", "wide", "int"], "dtk", i, j)
+            dt = (_hpick(gen.REPO_DTS, "dtr", i, j) if dt_kind == "repo" else
+                  (int(1 + 2999 * _hu("dti", i, j)) if dt_kind == "int" else
+                   float("%.6g" % math.exp(math.log(1e-9) + math.log(1e15) * _hu("dtw", i, j)))))
+            cases.append({"len": ln, "k0": int(k0), "phase": round(2 * math.pi * _hu("ph", i, j), 6),
+                          "amp": float("%.6g" % math.exp(math.log(1e-6) + math.log(1e12) * _hu("amp", i, j))),
+                          "unit": _hpick([0, 0, 0, -600, -800, 560, 800], "u", i, j), "dt": dt,
+                          "obj": _hpick(["acc", "sig"], "obj", i, j), "mag": _hu("mag", i, j) < 0.5,
+                          "reads": _hpick([1, 2], "reads", i, j), "other_k0": int(2 + int((kmax - 1) * _hu("ok0", i, j)))})
+    return cases
+
+
+def _md_enum(tier, shard, nshards):
+    for i, c in enumerate(_md_cases(tier)):
+        if i % nshards == shard:
+            yield c
+
+
+@enum_clause(CLAUSES, "mid-range-dominant", _md_enum,
+             rule="record lengths as in `mid-range` (own ladder), n or n+1 samples; k0 in {2, 3, kmax-1, kmax} + a ladder of 4 (thorough 8) "
+                  "over [4, kmax-2]; phase, A in [1e-6,1e6] x 2^{0,-600,-800,560,800}, dt (repo rates | log-uniform [1e-9,1e6] | integer), "
+                  "Signal / AccSignal, complex array / magnitudes, one or two reads by hash of (VERIF_SEED, index)",
+             oracle="closed form k0/(n dt) on samples ceil(n/4)..floor(3n/4) (relative 1e-12) through get_max_stockwell_freq and "
+                    "get_max_tifq_vals_freq; then a second, freshly constructed object of the same length with another on-grid frequency "
+                    "is read (its own closed form), and the first object - record unchanged - is read again",
+             exhaustive_note="deterministic size ladder x frequency ladder incl. both ends of the statement's band",
+             min_nontrivial=0.9, quick_shards=4)
+def mid_range_dominant(case, ctx):
+    length = int(case["len"])
+    n = ref.even_length(length)
+    k0 = int(case["k0"])
+    kmax = (3 * n) // 8
+    if not (6 <= length <= MAX_LEN and 2 <= k0 <= kmax):
+        raise ValueError("case outside the domain")
+    ctx.cls(gen.size_class(length), "odd" if length % 2 else "even", "k0=2" if k0 == 2 else None, "k0=kmax" if k0 == kmax else None,
+            "obj=" + case["obj"], "extreme-unit" if case.get("unit") else None)
+    ctx.nt(True)
+    first, (n, length, lo, hi, f0, tol) = _dominant(ctx, case, _cosine(case))
+    # another record of the same length in a fresh object (a module-level cache keyed on the length would serve the first one)
+    other = dict(case, k0=int(case["other_k0"]), phase=float(case["phase"]) + 1.0, unit=0, reads=1)
+    _dominant(ctx, other, _cosine(other))
+    # the first object again: its record has not been touched
+    _trace(ctx, ctx.lib(sw.get_max_stockwell_freq, first), n, length, lo, hi, f0, tol,
+           "get_max_stockwell_freq (first object read again after another object was analysed, k0=%d, n=%d)" % (k0, n))
